@@ -1,6 +1,7 @@
 (* Extraction of the C13 model (lexer, reader, delivery in pieces) to OCaml. *)
 From Coq Require Import ZArith List ExtrOcamlBasic.
-Require Import ZV.Model.Regex ZV.Generated.LexTables ZV.Model.Lexer ZV.Model.Reader ZV.Model.TokScan.
+Require Import ZV.Model.Regex ZV.Generated.LexTables ZV.Model.Lexer ZV.Model.Reader ZV.Model.TokScan ZV.Model.ReaderSession.
 Extraction "model.ml" Z.add Z.mul Z.opp Z.div_eucl Z.of_nat Z.to_nat Z.compare
   lex_text decode_atom lex_all init_lstate reset
-  p_init p_reset p_deliver mark_last parse_after parse_whole parse_pieces observe unfinished scan tok_verdict text_tokens curly_plain.
+  p_init p_reset p_deliver mark_last parse_after parse_whole parse_pieces observe unfinished scan tok_verdict text_tokens curly_plain
+  join_lines repl_read new_parser do_call do_calls piece_calls read_after read_pieces_after.
